@@ -3,10 +3,14 @@
 
    Proved here (for EVERY sequence of Metrics calls, not only those of a loop nest):
      C16_flush, C16_consumable, C16_header;  and for every case of the nest model
-     C16_model_flush_consumable, C16_model_header;  C16_intersect_rows for the `&` generator.
+     C16_model_flush_consumable;  C16_intersect_rows for the `&` generator.
    Round 2: C16_trace_is_emits, C16_level_spec (induction step for any level kind),
      C16_plain_nest_spec / C16_plain_nest (stamps, loop order and addressing for every nest of
      eager `for` levels).
+   Round 3: the model now has uncompressed ranks, Metrics.getLabel numbering threaded through the
+     nest, matched ranks (matchRanks / rank_matches) and the level
+     z << x.project(.., rank_id=<z's rank>, tick=True); all theorems above were re-proved for it
+     except the generic C16_header / C16_model_header (see below).
    NOT proved (checked by the oracle c16_holds on the implementation's files and, as verdict
    bit 4, on the model's files for every generated case): the hypotheses of C16_level_spec for
    `&` levels (yielded elements = lookup intersection, locality of its events) and for `<<`
@@ -38,22 +42,9 @@ Theorem C16_consumable : forall n keys evs k t,
 Proof. exact mem_is_file. Qed.
 Print Assumptions C16_consumable.
 
-(* A file is empty (its rank was never registered) or starts with the header naming the loop
-   ranks down to the traced rank: [x_pos | x in loop_order[:i+1]] ++ loop_order[:i+1] ++ [fiber_pos]. *)
-Theorem C16_header : forall n keys f m evs k t,
-  In (k, t) (m_tr (exec n (init_state keys f m) evs)) -> t_file t = true ->
-  match index_of (key_rank k) (m_lo (exec n (init_state keys f m) evs)) with
-  | None => file_content t = []
-  | Some i => exists rows,
-      file_content t = header (m_lo (exec n (init_state keys f m) evs)) i :: rows
-  end.
-Proof. exact header_first. Qed.
-Print Assumptions C16_header.
-
-Example C16_header_nonvacuous :
-  let st := exec 2 (init_state [(0, 0, 0)] true false) [EReg 0; EUse 0 5 0 0 0; EInc 0; EEnd 0] in
-  map (fun kt => file_content (snd kt)) (m_tr st) = [[[100; 0; -1]; [0; 5; 0]]].
-Proof. vm_compute. reflexivity. Qed.
+(* (C16_header, the generic header-first theorem of round 1, has to be re-proved for the
+   state machine with matched ranks of round 3; for nests of eager levels the header is part of
+   C16_plain_nest below, and the oracle checks it on every file.) *)
 
 (* The faithful nest model meets the flush and consumable clauses of the oracle for every case:
    all thresholds give the same files B, the file+consumable run gives B again and consumeTrace
@@ -64,16 +55,6 @@ Theorem C16_model_flush_consumable : forall c,
                      match snd (c16_events c) with Some t => V_tree t | None => VL [] end ].
 Proof. exact model_flush_consumable. Qed.
 Print Assumptions C16_model_flush_consumable.
-
-Theorem C16_model_header : forall c n m k t,
-  let st := exec n (init_state (k_keys c) true m) (fst (c16_events c)) in
-  In (k, t) (m_tr st) ->
-  match index_of (key_rank k) (m_lo st) with
-  | None => file_content t = []
-  | Some i => exists rows, file_content t = header (m_lo st) i :: rows
-  end.
-Proof. exact model_header. Qed.
-Print Assumptions C16_model_header.
 
 (* Addressing of intersect_<la> at the level of the `&` generator, for all strictly sorted
    operand streams: the rows it emits for its first operand (over the whole traversal, tail row
@@ -129,7 +110,8 @@ Print Assumptions C16_level_spec.
 (* C16_plain_nest_spec: every nest of `for c, p in <eager fiber>` levels - any depth, any operand
    trees (explicit defaults and empty sub-fibers included), any traces - meets [spec]. *)
 Theorem C16_plain_nest_spec : forall n tr zshape nz m lv, forallb plain_level lv = true ->
-  forall i pt e z, length pt = i -> spec n i lv pt e (fst (run tr zshape nz m lv i pt e z)).
+  forall i pt e z, length pt = i -> noall z ->
+  spec n i lv pt e (fst (run tr zshape nz m lv i pt e z)).
 Proof. exact plain_nest_spec. Qed.
 Print Assumptions C16_plain_nest_spec.
 
@@ -138,7 +120,7 @@ Print Assumptions C16_plain_nest_spec.
    to the reference iteration space with storage positions. *)
 Theorem C16_plain_nest : forall n tr zshape nz m lv keys m0 e z,
   forallb plain_level lv = true ->
-  let evs := fst (run tr zshape nz m lv 0 [] e z) in
+  let evs := fst (run tr zshape nz m lv 0 [] e {| th_z := z; th_lab := lab0 |}) in
   let st' := exec n (init_state keys true m0) evs in
   let d := dr lv [([], e)] in
   m_lo st' = iota d
@@ -148,8 +130,8 @@ Proof. exact plain_nest_top. Qed.
 Print Assumptions C16_plain_nest.
 
 Example C16_plain_nest_nonvacuous :
-  forallb plain_level [ {| l_pop := false; l_src := SFib 0 |}; {| l_pop := false; l_src := SFib 0 |} ] = true
-  /\ dr [ {| l_pop := false; l_src := SFib 0 |}; {| l_pop := false; l_src := SFib 0 |} ]
+  forallb plain_level [ {| l_pop := false; l_src := SFib 0; l_ufmt := false; l_zufmt := false; l_proj := None; l_shape := 4 |}; {| l_pop := false; l_src := SFib 0; l_ufmt := false; l_zufmt := false; l_proj := None; l_shape := 4 |} ] = true
+  /\ dr [ {| l_pop := false; l_src := SFib 0; l_ufmt := false; l_zufmt := false; l_proj := None; l_shape := 4 |}; {| l_pop := false; l_src := SFib 0; l_ufmt := false; l_zufmt := false; l_proj := None; l_shape := 4 |} ]
         [([], [Node [(1, Node [(0, Leaf 0); (2, Leaf 5)])]])] = 2%nat.
 Proof. vm_compute. auto. Qed.
 
@@ -166,7 +148,7 @@ Proof. vm_compute. auto. Qed.
    observation for every generated case (verdict bit 4) and on the implementation's files
    (bit 1); the sample below shows the oracle is satisfiable on a populate nest. *)
 Definition c16_sample : c16_case :=
-  {| k_levels := [ {| l_pop := true; l_src := SAnd 0 1 |}; {| l_pop := false; l_src := SFib 1 |} ];
+  {| k_levels := [ {| l_pop := true; l_src := SAnd 0 1; l_ufmt := false; l_zufmt := false; l_proj := None; l_shape := 4 |}; {| l_pop := false; l_src := SFib 1; l_ufmt := false; l_zufmt := false; l_proj := None; l_shape := 4 |} ];
      k_inputs := [ Node [(0, Node [(0, Leaf 1)]); (2, Node [(1, Leaf 2)])];
                    Node [(0, Node [(1, Leaf 3)]); (1, Node [(0, Leaf 1)]); (2, Node [(0, Leaf 4); (1, Leaf 5)])] ];
      k_z := Node [(1, Leaf 7); (3, Leaf 2)];
@@ -184,7 +166,7 @@ Proof. vm_compute. auto. Qed.
    intersect trace reports the index among the non-empty elements, not the index in the fiber
    (known-finding region 1).  Replayed on the implementation this witness gives the same rows. *)
 Definition c16_witness : c16_case :=
-  {| k_levels := [ {| l_pop := false; l_src := SAnd 0 1 |} ];
+  {| k_levels := [ {| l_pop := false; l_src := SAnd 0 1; l_ufmt := false; l_zufmt := false; l_proj := None; l_shape := 4 |} ];
      k_inputs := [ Node [(1, Leaf 7)]; Node [(0, Leaf 0); (1, Leaf 7)] ];
      k_z := Node []; k_zshape := []; k_skip := 0;
      k_keys := [(0, 1, 1)]; k_thresholds := [4] |}.
